@@ -40,6 +40,19 @@ def slicer(quick_n):
     return sel
 
 
+def slicer_keep(quick_n, keep):
+    """like slicer, but cases for which keep(case) holds are always replayed (rare kinds of cases)"""
+    def sel(cases, tier, seed):
+        if tier == "thorough" or len(cases) <= quick_n:
+            return cases
+        kept = [c for c in cases if keep(c)]
+        rest = [c for c in cases if not keep(c)]
+        rnd = random.Random(seed)
+        idx = sorted(rnd.sample(range(len(rest)), max(0, min(len(rest), quick_n - len(kept)))))
+        return kept + [rest[i] for i in idx]
+    return sel
+
+
 PLANS = {}
 HOOK_COMMITS = ["537babc"]
 
@@ -464,7 +477,7 @@ PLANS["C16"] = dict(
         name="names",
         gen=dict(module="MC_PluginManager_C16",
                  cfg=lambda tier, seed: mc_cfg(["Inv_Lemma", "Inv_Converse", "Inv_Guard", "Inv_Emit"], consts=["MaxComps = 4" if tier == "thorough" else "MaxComps = 3"]),
-                 select=slicer(4000)),
+                 select=slicer_keep(4000, lambda c: c["in"]["op"] in ("InstallFile", "InstallDir"))),
         drive=dict(driver="pluginmgr-names"),
         validate=dict(module="Trace_PluginManager", cfg=trace_cfg()),
     )],
@@ -486,7 +499,7 @@ PLANS["C20"] = dict(
         name="transitions",
         gen=dict(module="MC_PluginManager_C20",
                  cfg=lambda tier, seed: mc_cfg(["Inv_C20", "Inv_SameFromFileOrDir", "Inv_Emit", "Inv_EmitU"], consts=['Variant = "full"' if tier == "thorough" else 'Variant = "small"']),
-                 select=slicer(4000)),
+                 select=slicer_keep(4000, lambda c: c["in"]["op"] == "Uninstall")),
         drive=dict(driver="plugin-install"),
         validate=dict(module="Trace_PluginInstall", cfg=trace_cfg()),
     )],
